@@ -2,10 +2,12 @@
 
 TRUSTED_BASE = [
     "Lean 4.33.0 kernel (thorough tier: re-checked with leanchecker)",
-    "axioms reported by #print axioms: at most propext, Classical.choice, Quot.sound",
+    "axioms reported by #print axioms: at most propext, Classical.choice, Quot.sound; no sorry/admit/axiom/native_decide/bv_decide (grep of the import closure)",
     "Mathlib v4.33.0 lemmas (single modules, proof files only)",
-    "hand-written Lean model of the Go code, tied to /repo by the correspondence run of this check",
-    "IEEE-754 float bridge on the exact regime E (DESIGN.md section 3)",
+    "the translators of /verif/translate (go/ast, go/types, x/tools SSA) that regenerate Lean definitions from /repo on every run; what they do not recognise becomes `opaque` and breaks the bridge proofs",
+    "hand-written Lean model of the Go code: tied to the regenerated definitions by bridge theorems where the property lists translators, and to /repo's behaviour by the correspondence run of this check",
+    "IEEE-754: hardware and Go compute correctly rounded binary64 operations without FMA contraction changing a decision; the exact binary64 model over Q and the float bridge on regime E are proved (DESIGN.md section 3)",
+    "external libraries by contract: gjson, pretty, strconv float formatting, tidwall/rtree for collection children (DESIGN.md section 7)",
     "bin/check (this driver), the Go harness and its generators",
 ]
 
@@ -47,7 +49,7 @@ PROPS = {
         "proof_module": "GeoProofs.Props.C01All",
         "theorems": ["Geo.containsPoint_fold_perm", "Geo.ringContainsPoint_hit_iff", "Geo.ringContainsPoint_hit_iff_none", "Geo.ringContainsPoint_hit_iff_quadtree", "Geo.ringContainsPoint_idx_on", "Geo.rectRing_containsPoint_iff", "Geo.polyContainsPoint_iff", "Geo.lineContainsPoint_iff", "Geo.rectContainsPoint_iff", "Geo.ringContainsPoint_index_indep", "Geo.ringContainsPoint_hit_iff_rtree", "Geo.polyContainsPoint_iff_rtree", "Geo.lineContainsPoint_iff_rtree", "Geo.c01_leaf_point_relations", "Geo.c01_obj_point_exact", "Geo.c01_obj_point_exact_shape", "Geo.Geom.C01Cfg.member_eq", "Geo.c01Cfg_poly_none", "Geo.c01Cfg_line_none", "Geo.c01Cfg_line_dyadic", "Geo.c01Cfg_poly_dyadic", "Geo.c01_point_relations_agree", "Geo.c01_intersects_point_all", "Geo.c01_contains_point_all", "Geo.c01_point_intersects_all"],
         "trivial_sigs": set(),
-        "claim": "Proof (Lean 4): for every vertex list, every query point and every index kind/threshold the model's ring/polygon/line/rect membership equals the crossing-parity specification (ringContainsPoint_hit_iff, polyContainsPoint_iff, lineContainsPoint_iff, index independence via the C04 search-exactness theorems incl. the R-tree on dyadic coordinates); the model is tied to /repo by exhaustive small-lattice and random correspondence at geometry and object level under 8 index configurations.",
+        "claim": "Proof (Lean 4): for every vertex list, every query point and every index kind/threshold the model's ring/polygon/line/rect membership equals the crossing-parity specification (ringContainsPoint_hit_iff, polyContainsPoint_iff, lineContainsPoint_iff; index independence via the C04 search-exactness theorems, which hold for all finite doubles); at object level all eight relations of every leaf kind with a Point / SimplePoint equal that specification, and collections / features answer iff some geometry leaf has the position as a member (Props/C01Obj*.lean). The membership code itself (ringContainsPoint, Poly.ContainsPoint hole loop, Line.ContainsPoint) is regenerated from ring.go / poly.go / line.go and proved equal to the model (RingBridge, GlueBridge, LineBridge). Tie: exhaustive small-lattice and random correspondence at geometry and object level under 8 index configurations, and under the representation options at object level.",
         "rule": "every ring of 3..4 vertices (5 thorough) on the 3x3 lattice against all 49 half-step query points, rotating through "
                 "index configurations; random lines, rects, arbitrary and valid polygons (with holes, >=64 vertices) under 8 index "
                 "configurations whose answers must agree; non-trivial = distinct (shape, query) case",
@@ -56,8 +58,8 @@ PROPS = {
     "C04": {
         "suites": ["c04"],
         "level": "proof",
-        "extra_modules": [{"module": "GeoProofs.Props.SeriesBridge", "theorems": ["Geo.SeriesBridge.search", "Geo.SeriesBridge.buildIndex", "Geo.SeriesBridge.buildIndex_built", "Geo.SeriesBridge.makeSeries_opts", "Geo.SeriesBridge.makeSeries_nil", "Geo.SeriesBridge.move", "Geo.SeriesBridge.header_buildIndexBytes", "Geo.SeriesBridge.inv_makeSeries", "Geo.SeriesBridge.inv_move"]}],
-        "translators": [{"name": "seriesmeth", "out": "SeriesMethGen.lean"}],
+        "extra_modules": [{"module": "GeoProofs.Props.IndexBridge", "theorems": ["Geo.IndexBridge.rect_expand", "Geo.IndexBridge.rect_contains", "Geo.IndexBridge.rect_intersects", "Geo.IndexBridge.rect_largestAxis", "Geo.IndexBridge.rect_recalc", "Geo.IndexBridge.rect_chooseLeast", "Geo.IndexBridge.rect_split", "Geo.IndexBridge.rtree_tie_nan", "Geo.IndexBridge.rect_insert", "Geo.IndexBridge.rtree_Insert", "Geo.IndexBridge.rtree_build_eq", "Geo.IndexBridge.appendFloat", "Geo.IndexBridge.rect_compress", "Geo.IndexBridge.rtree_compress", "Geo.IndexBridge.rnCompressSearch", "Geo.IndexBridge.rCompressSearch", "Geo.IGlue.split_right_empty", "Geo.IndexBridge.numBytes", "Geo.IndexBridge.chooseQuad", "Geo.IndexBridge.quadBounds", "Geo.IndexBridge.appendNum", "Geo.IndexBridge.readNum", "Geo.IndexBridge.compress", "Geo.IndexBridge.compressSearch", "Geo.IndexBridge.insert", "Geo.IndexBridge.quadtree_build_eq", "Geo.IGlue.compress_differs_2pow32"]}, {"module": "GeoProofs.Props.SeriesBridge", "theorems": ["Geo.SeriesBridge.search", "Geo.SeriesBridge.buildIndex", "Geo.SeriesBridge.buildIndex_built", "Geo.SeriesBridge.makeSeries_opts", "Geo.SeriesBridge.makeSeries_nil", "Geo.SeriesBridge.move", "Geo.SeriesBridge.header_buildIndexBytes", "Geo.SeriesBridge.inv_makeSeries", "Geo.SeriesBridge.inv_move"]}],
+        "translators": [{"name": "index", "out": "IndexGen.lean"}, {"name": "seriesmeth", "out": "SeriesMethGen.lean"}],
         "proof_module": "GeoProofs.Props.C04All",
         "theorems": ["Geo.qtree_search_exact", "Geo.rtree_search_exact", "Geo.rtree_search_exact_of_NE", "Geo.rBuild_items_counterexample", "Geo.readNum_appendNum", "Geo.qSearchTree_eq_foldUntil", "Geo.qVisit_perm_filter", "Geo.qInsert_inv", "Geo.qInsert_items", "Geo.qBuild_spec", "Geo.rSearchTree_eq_foldUntil", "Geo.rVisit_eq_filter", "Geo.splitEntries_perm", "Geo.rBuild_spec'", "Geo.series_search_exact_none", "Geo.series_search_exact_quadtree", "Geo.series_search_exact_rtree", "Geo.segBox_inside_rect", "Geo.series_search_exact_rtree_dyadic", "Geo.series_search_exact_dyadic", "Geo.decF64_encF64", "Geo.rtree_search_exact_patched", "Geo.rBuild_good", "Geo.searchAny_perm", "Geo.searchAny_index_indep", "Geo.intersectsSegment_fold_perm", "Geo.ringIntersectsSegment_index_indep", "Geo.ringIntersectsSegmentS_index_indep", "Geo.ringIntersectsLine_index_indep", "Geo.ringIntersectsRing_index_indep", "Geo.lineIntersectsLine_index_indep", "Geo.lineContainsLine_index_indep", "Geo.lineContainsPoint_index_indep", "Geo.polyContainsPoint_index_indep", "Geo.polyIntersectsLine_index_indep", "Geo.polyIntersectsPoly_index_indep", "Geo.polyIntersectsRect_index_indep", "Geo.ringContainsSegment_index_indep", "Geo.ringContainsSegment_index_indep_simple", "Geo.ringContainsSegmentS_false_index_indep", "Geo.ringContainsRing_index_indep", "Geo.ringContainsLine_index_indep", "Geo.Geom.Sim.intersects", "Geo.Geom.Sim.contains", "Geo.geom_intersects_index_indep", "Geo.geom_intersects_index_indep₂", "Geo.geom_contains_index_indep", "Geo.geom_contains_index_indep₂", "Geo.geom_intersects_index_indep_sized", "Geo.geom_contains_index_indep_sized", "Geo.ringContainsSegmentS_eq_V", "Geo.ringContainsSegmentS_eq_L", "Geo.ringContainsSegment_order_dependent_counterexample", "Geo.pinched_unindexed", "Geo.ringContainsSegment_not_sim_invariant", "Geo.rtree_series_foldOn", "Geo.ring17_rOrder", "Geo.ringContainsSegment_rtree_vs_none", "Geo.ringContainsSegment_not_index_indep", "Geo.geom_contains_rtree_vs_none", "Geo.qtree_series_foldOn", "Geo.ring37_strip_order", "Geo.ringContainsSegment_quadtree_vs_none", "Geo.DF.instLawfulCarrierDbl", "Geo.DF.instSignExactSubDbl", "Geo.DF.ieee_sub_neg", "Geo.DF.ieee_sub_pos", "Geo.DF.decD_encD", "Geo.DF.qtree_search_exact_dbl", "Geo.DF.rtree_search_exact_dbl", "Geo.DF.rtree_search_exact_patched_dbl", "Geo.DF.gseries_search_exact", "Geo.DF.series_search_exact_dbl", "Geo.DF.C04_series_dbl", "Geo.DF.toFQ_sub", "Geo.DF.toFQ_mul", "Geo.DF.toFQ_mid"],
         "trivial_sigs": {"se0"},
@@ -96,7 +98,7 @@ PROPS = {
         "translators": [{"name": "parsers", "out": "ParseGen.lean"}, {"name": "linewalk", "out": "LineGen.lean"}],
         "proof_module": "GeoProofs.Props.C05", "theorems": ["Geo.parse_fuel_sufficient", "Geo.parseTop_total", "Geo.parseTop_unmodelled_only_string_radius", "Geo.parse_extraOK", "Geo.write_some_of_extraOK", "Geo.parse_then_write_no_panic"],
         "trivial_sigs": set(),
-        "claim": "Proof on the model (Lean 4): Parse is total and its fuel is never exhausted, every parsed object has a complete extras table so the writers never index out of range, the repaired Line.ContainsLine walk terminates; all other model functions are structurally recursive. Tie: outcome correspondence (value/error/panic/timeout) under a watchdog on documents, mutations, arbitrary bytes and every method on all kind pairs. Stack depth and wall-clock are not modelled.",
+        "claim": "Proof on the model (Lean 4): Parse is total and its fuel is never exhausted, every parsed object has a complete extras table so the writers never index out of range, the repaired Line.ContainsLine walk terminates (and the walk regenerated from line.go equals the model's for every fuel above (n+2)(m+2): LineBridge); the Parse functions regenerated from the source agree with the model (parse_bridge). Tie: outcome correspondence (value/error/panic/timeout) under a watchdog on documents, mutations, arbitrary bytes, index-stressing layouts, overflowing literals (xinf) and every method on all kind pairs. Stack depth and wall-clock are not modelled.",
         "rule": "outcomes (value / error enum / panic / timeout) of Parse on grammar-generated documents, structured mutations, arbitrary bytes, "
                 "truncations and splices, and of every query method on ordered pairs of objects of all kinds (empty collections, zero-length "
                 "segments, repeated vertices, nested features), each in a worker process under a per-op watchdog; non-trivial = distinct op",
